@@ -81,10 +81,13 @@ ASSUMPTIONS = [
     "under the warning filter action 'error' only: an exception must come out and nothing may be shown; its line is "
     "checked only when Mako raises its own exception type (a raw SyntaxError of the byte-code stage is C11's known finding)",
     "for a multi-line ${} both the first line of the construct and the exact line of the literal are accepted for a warning",
-    "weight-2/3 programs are not run as the full kind x path product but as: every (program, position, kind) on one path "
-    "chosen by rotation, and every (program, position, path) with the two principal kinds (${1/0}, <% %> line 2)",
-    "html_error_template / format_exceptions are checked on the principal kinds only (they consume the already "
-    "validated RichTraceback); the pygments highlight check is skipped when pygments is not installed",
+    "the groups called 'rotated' in BOUNDS are not run as the full kind x path product but as: every (program, position, "
+    "kind) on one path chosen by rotation, and every (program, position, path) with the two principal kinds (${1/0}, <% %> line 2)",
+    "html_error_template is checked for the principal kinds on the rotating path and format_exceptions=True for ${1/0} on the "
+    "rotating path only (they consume the already validated RichTraceback); the pygments highlight check is skipped when "
+    "pygments is not installed",
+    "a def default in a re-opened module directory: the template is not compiled again and the regenerated signature carries "
+    "no warning-triggering literal, so the number of warnings shown there is not demanded",
     "sys.dont_write_bytecode is on (no .pyc), so a re-opened module directory compiles the module file again",
 ]
 LEVEL_TEXT = (
@@ -93,7 +96,7 @@ LEVEL_TEXT = (
     "recorded warnings are compared with an independent prediction. Complete within those bounds; no sampling."
 )
 LEVEL_NOTE = "Trusted: CPython, the IR printer/interpreter in mc/c12_ir.py. Larger programs and other construct spellings are not covered."
-READY = False
+READY = True
 
 
 # --------------------------------------------------------------------------
